@@ -83,7 +83,8 @@ _l("C15", "4 C15", "NullifyBurn / MintStage / DevStage (Ledger.tla) state each s
    "mint-burn block fails once; Config.tla covers the default heights, the developer table and the 2.0.4 supply table.")
 _l("C16", "4 C16", "PegStage (LedgerBlock.tla): requested amounts, floor shares of the bank, dust to the highest request (lowest txid among ties), refunds at spot "
    "rates, per-height sets before V4 and one pooled set with a bank row after; legacy-era chains with totals below / above the bank, ties and requests spread "
-   "over unrated blocks are run on the real node; TLC compares PEG / source deltas, recorded yield + refund and the bank row.")
+   "over unrated blocks are run on the real node; TLC compares PEG / source deltas, recorded yield + refund and the bank row. Kernel: the real "
+   "ConversionSupplySet.Payouts (4 banks x all request vectors 0..6^3) and Refund (1 600 argument tuples) are compared call by call with PegYields / Refund by TLC (Trace_BankK).")
 
 _l("C17", "4 C17", "MC_Ledger proves ExecutedIffRel / PendingIffHeld; on real runs TLC checks after every block that statuses tell the truth (executed iff applied with "
    "the credited amounts, negative iff rejected without effect, pending only while it can still be considered) and that replaying the block's history rows plus "
